@@ -692,11 +692,12 @@ fn synthesize(events: Vec<Value>, tick: u64) -> Vec<Value> {
         let twin = cands.iter().enumerate().any(|(k2, c2)| k2 != k && c2.h == c.h && c2.p == c.p && c2.a == c.a);
         let amb = !touches.is_empty() || twin;
         // ambiguous against calls at the same instant: the hand-over may have happened before any of
-        // them or after the last: reported (as optional, re-opening) before each of them - from the last
-        // bind on - and once more after the last
-        for tp in touches.iter().filter(|t| last_bind.map(|b| **t > b).unwrap_or(true)) {
+        // them or after the last: reported (as optional, re-opening) before each of them and once more
+        // after the last (a report that finds no socket bound is void, one after a bind finds the new one)
+        for tp in touches.iter() {
             inserts.push((*tp, 1, k, json!({"ev":"arrive","id":c.id,"h":c.h,"p":c.p,"dk":c.dk,"amb":true,"via":"local"})));
         }
+        let _ = last_bind;
         inserts.push((pos, 1, k, json!({"ev":"arrive","id":c.id,"h":c.h,"p":c.p,"dk":c.dk,"amb":amb,"via":"local"})));
     }
     inserts.sort_by_key(|x| (x.0, x.1, x.2));
